@@ -85,7 +85,8 @@ FAMILIES = [WritePathFamily, SearchFamily, MinMaxFamily, MergeFamily, QueryFamil
 # violations of that property are reported by the property's check as well
 # C11: MergeMonitor.tla evaluates C11_BagUnchanged / C11_KeysKept on populations of many files (several merge groups per call),
 # which the search cases (at most three files) do not build
-SECONDARY = {"C23": [QueryFamily], "C06": [FSStoreFamily], "C11": [MergeFamily]}
+# C03: QueryMonitor.tla's C03_KeptRowsIntact (rows held across Close / cancel and a later scan of the same blocks)
+SECONDARY = {"C23": [QueryFamily], "C06": [FSStoreFamily], "C11": [MergeFamily], "C03": [QueryFamily]}
 
 # every harness runs with captured stdout/stderr and every monitor carries C27_Silent: for C27 the other
 # families' verdicts are folded in when their result for this tree is already cached (never computed for it)
